@@ -1187,7 +1187,9 @@ func (e *env) main(inClose, closeReturned *bool) {
 						obs.ByIfaceErr[name] = true
 					}
 				}()
+				ctx.Log("iface-query", name, fmt.Sprint(k))
 				cs, err := a.GetComponents(container.InterfaceType(it))
+				ctx.Log("iface-query-done", name, fmt.Sprint(k))
 				if err != nil {
 					obs.ByIfaceErr[name] = true
 					return
